@@ -45,6 +45,11 @@ type (
 		Vars   []SQVar
 		Body   SExpr
 	}
+	SLet  struct {
+		Name string
+		Val  SExpr
+		Body SExpr
+	}
 	SHash struct{ Loop int } // #i (innermost = 0) or #i@k (loop ordinal k)
 	SType struct{ Name string } // a type used as an argument: is(x, T)
 )
@@ -116,7 +121,7 @@ func lexSpec(s string) ([]tok, error) {
 					goto next
 				}
 			}
-			if strings.ContainsRune("<>!+-*/%()[],.:#@{}", rune(c)) {
+			if strings.ContainsRune("<>!+-*/%()[],.:#@{}=", rune(c)) {
 				ts = append(ts, tok{"op", string(c)})
 				i++
 			} else {
@@ -239,6 +244,13 @@ func (p *specParser) primary() SExpr {
 			return SLit{"bool", t.v}
 		case "nil":
 			return SLit{"nil", ""}
+		case "let":
+			n := p.next()
+			p.expect("=")
+			val := p.expr(0)
+			p.expect("::")
+			body := p.expr(0)
+			return SLet{n.v, val, body}
 		case "forall", "exists":
 			var vars []SQVar
 			for {
@@ -263,7 +275,7 @@ func (p *specParser) primary() SExpr {
 			p.expect("::")
 			body := p.expr(0)
 			return SQuant{t.v == "forall", vars, body}
-		case "is", "box", "unbox", "zero":
+		case "is", "box", "unbox", "zero", "asref":
 			// is(x, T) / box(T, x) / unbox(T, x) / zero(T)
 			p.expect("(")
 			var args []SExpr
